@@ -57,6 +57,17 @@ def splitLoop (lim : Nat) : Nat → Bytes → List Bytes
 def split (buf : Bytes) (lim : Nat) : List Bytes :=
   if buf.length = 0 then [buf] else splitLoop lim (buf.length + 1) buf
 
+/-- the chunk LENGTHS `split` produces, computed from the length alone (what `split` determines besides
+the bytes themselves; used for messages too large to materialise) -/
+def splitLensLoop (lim : Nat) : Nat → Nat → List Nat
+  | 0, _ => []
+  | fuel + 1, n =>
+    if n ≥ lim then lim :: splitLensLoop lim fuel (n - lim)
+    else if n > 0 then [n] else []
+
+def splitLens (n lim : Nat) : List Nat :=
+  if n = 0 then [0] else splitLensLoop lim (n + 1) n
+
 /-- mark the last packet with EOF (`Eof: i == len(chunks)-1`) -/
 def markEof (topic : Nat) : List Bytes → List Packet
   | [] => []
